@@ -188,7 +188,8 @@ def random_names(tier, flavours=None, quick_n=1, thorough_n=12):
     """names of the random edit histories of a tier: seeds 1..n per flavour, shifted by VERIF_SEED so that other histories can be
     explored without touching the checks"""
     import os
-    base = int(os.environ.get('VERIF_SEED', '0') or 0) * 1000
+    # the quick tier always runs the same histories; VERIF_SEED moves the thorough tier to other ones
+    base = int(os.environ.get('VERIF_SEED', '0') or 0) * 1000 if tier != 'quick' else 0
     n = quick_n if tier == 'quick' else thorough_n
     return ['random:%s:%d' % (fl, base + k) for fl in (flavours or sorted(FLAVOURS)) for k in range(1, n + 1)]
 
@@ -751,7 +752,7 @@ def get_udf_script(name):
 
 def random_udf_names(tier, quick_n=2, thorough_n=20):
     import os
-    base = int(os.environ.get('VERIF_SEED', '0') or 0) * 1000
+    base = int(os.environ.get('VERIF_SEED', '0') or 0) * 1000 if tier != 'quick' else 0
     n = quick_n if tier == 'quick' else thorough_n
     return ['udf-random:%d' % (base + k) for k in range(1, n + 1)] + ['udf-random-rr:%d' % (base + k) for k in range(1, n // 2 + 1)]
 
